@@ -66,9 +66,11 @@ type image struct {
 	n        int
 	end      int64 // logical end offset of the written region (write ops)
 	hit      int
+	startup  bool // taken during start-up (WAL replay, head chunk repair) rather than during normal operation
 }
 
 type exec struct {
+	starting bool               // inside the reopen of a restart: IO seen now belongs to the start-up of the next process lifetime
 	shardOf  map[string]uint64  // C18: "<n>|<series>" -> shard index seen earlier in this run
 	delTimes map[string][]int64 // C12: timestamps deleted so far, per series
 	t        *testing.T
@@ -243,6 +245,9 @@ func (e *exec) onIO(op, site, path string, n int) {
 	}
 	rel := path[len(e.dir)+1:]
 	e.res.Count("io:"+site, 1)
+	if debugIO {
+		fmt.Printf("DBG   io op=%d %s %s %s n=%d collecting=%v hits=%d\n", e.opIdx, op, site, rel, n, e.collecting, e.hits)
+	}
 	switch op {
 	case "create":
 		e.logical[rel] = int64(n)
@@ -275,7 +280,7 @@ func (e *exec) onIO(op, site, path string, n int) {
 		return
 	}
 	e.imgSeq++
-	img := &image{dir: filepath.Join(e.root, fmt.Sprintf("img%d", e.imgSeq)), site: site, op: op, path: rel, n: n, end: e.logical[rel], hit: e.hits}
+	img := &image{dir: filepath.Join(e.root, fmt.Sprintf("img%d", e.imgSeq)), site: site, op: op, path: rel, n: n, end: e.logical[rel], hit: e.hits, startup: e.starting}
 	if err := simfs.CopyTree(e.dir, img.dir); err != nil {
 		panic(fmt.Sprintf("harness: copy image: %v", err))
 	}
@@ -1024,6 +1029,7 @@ func Execute(t *testing.T, prop string, plan *Plan) (res *runner.Result) {
 }
 
 var debugOn = os.Getenv("VERIF_DEBUG") != ""
+var debugIO = os.Getenv("VERIF_DEBUG_IO") != ""
 
 type blockSource struct{ b tsdb.BlockReader }
 
@@ -1098,6 +1104,8 @@ func (e *exec) nonTrivial() bool {
 		return e.res.Counters["samples_deleted"] > 0 && e.compactions > 0 && e.restarts > 0
 	case "C52":
 		return e.res.Counters["counter_checks"] > 10 && e.restarts > 0
+	case "C22":
+		return e.res.Counters["stale_ref_appends"] > 0 && e.res.Counters["series_recreated_appends"] > 0 && e.restarts > 0
 	case "C16":
 		return e.res.Counters["label_queries_selective"] >= 3 && e.compactions > 0
 	case "C18":
@@ -1323,10 +1331,29 @@ func (e *exec) doAdd(o Op) {
 			return
 		}
 	}
+	if ref != 0 && !ms.InHead {
+		e.res.Count("stale_ref_appends", 1) // the cached reference outlived its series (garbage collection / eviction)
+	}
 	if err == nil {
 		if gotRef == 0 {
 			e.fail("append-ref", "zero-ref", "op %d: accepted append returned series ref 0", e.opIdx)
 			return
+		}
+		if e.prop == "C22" {
+			// the reference handed back must be the one the label set resolves to, whatever reference was passed in
+			la := e.db.Appender(context.Background())
+			if gr, ok := la.(storage.GetRef); ok {
+				if r2, _ := gr.GetRef(lset, lset.Hash()); r2 != gotRef {
+					_ = la.Rollback()
+					e.fail("ref-attribution", "returned-ref-not-the-series", "op %d: Append(ref=%d, %s) returned ref %d, but the label set resolves to ref %d", e.opIdx, ref, lset, gotRef, r2)
+					return
+				}
+				e.res.Count("ref_resolution_checks", 1)
+			}
+			_ = la.Rollback()
+			if ms.GCd {
+				e.res.Count("series_recreated_appends", 1)
+			}
 		}
 		s.m.Accept(o.S, v, o.Rej, kf)
 		if e.refs[o.S] != 0 && e.refs[o.S] != gotRef || ms.GCd {
@@ -1920,7 +1947,9 @@ func (e *exec) restart() {
 		return
 	}
 	var err error
+	e.starting = true
 	e.db, e.reg, err = e.open(e.dir)
+	e.starting = false
 	if err != nil {
 		e.fail("open", "reopen-error", "op %d: reopen after clean shutdown failed: %v", e.opIdx, err)
 		return
